@@ -26,7 +26,8 @@ from .c18 import corrupt_value, outcome
 ID = 'C17'
 LEVEL = 'fault_enumeration'
 RULE = ('histories of 2-8 compile_files calls over a shared cache directory (3 spec variants with identical type names, 1-2 files, '
-        '8 codecs, numeric_enums on/off) compared call by call with cache_dir=None; crash points: every k-th occurrence of each '
+        '8 codecs, numeric_enums on/off) compared call by call with cache_dir=None; option histories of 3-10 calls over one file '
+        'varying any_defined_by_choices (8 tables incl. same selectors mapped to other types), encoding and numeric_enums; crash points: every k-th occurrence of each '
         'write-side syscall kind of a cache population (first population, second key into an existing cache, re-population after '
         'a file change) killed with SIGKILL on syscall entry, followed by a reader; damage: truncation at 4 KiB boundaries and '
         'random offsets, bit flips; distinct by (scenario, syscall kind, k) / (history signature) / (damage kind, offset bucket)')
@@ -34,9 +35,9 @@ ASSUMPTIONS = ['a SIGKILLed writer keeps its completed writes in the page cache:
                'writer syscall sequence, not torn sectors or power loss',
                'behaviour = bytes/values/errors of a probe battery derived from my AST',
                'behaviour is compared on a probe battery, not object identity']
-REPORT = ['histories', 'history_calls', 'crash_points_enumerated', 'crash_points_total', 'crash_outcome:equal',
+REPORT = ['histories', 'history_calls', 'option_history_calls', 'crash_points_enumerated', 'crash_points_total', 'crash_outcome:equal',
           'crash_outcome:error', 'damage_cases', 'damage_outcome:equal', 'damage_outcome:error', 'evaluations']
-FLOORS = {'quick': {'history_calls': 150, 'crash_points_enumerated': 150, 'damage_cases': 100},
+FLOORS = {'quick': {'history_calls': 150, 'option_history_calls': 150, 'crash_points_enumerated': 150, 'damage_cases': 100},
           'thorough': {'history_calls': 1500, 'crash_points_enumerated': 500, 'damage_cases': 1500}}
 TIMEOUT = {'quick': 1800, 'thorough': 14000}
 KINDS = ['pwrite64', 'fdatasync', 'ftruncate', 'unlink', 'mkdir']
@@ -46,6 +47,37 @@ SCENARIOS = ['first_population', 'second_key', 'repopulate_after_change']
 
 def shards(tier):
     return 32 if tier == 'quick' else 64
+
+
+# ---- option histories: any_defined_by_choices and encoding (not produced by my generator: a fixed module)
+OPT_TEXT = '''Opt DEFINITIONS ::= BEGIN
+Fie ::= SEQUENCE { bar INTEGER, fum ANY DEFINED BY bar }
+Fum ::= SEQUENCE { k INTEGER, w ANY DEFINED BY k, note UTF8String DEFAULT "\u00e5\u00e4" }
+END
+'''
+LOC1, LOC2 = ('Opt', 'Fie', 'fum'), ('Opt', 'Fum', 'w')
+OPT_CHOICES = [None,
+               {LOC1: {0: 'NULL', 1: 'INTEGER'}},
+               {LOC1: {0: 'NULL', 1: 'BOOLEAN'}},
+               {LOC1: {0: 'INTEGER', 1: 'NULL'}},
+               {LOC1: {0: 'NULL'}},
+               {LOC1: {0: 'NULL', 1: 'INTEGER'}, LOC2: {0: 'BOOLEAN', 1: 'INTEGER'}},
+               {LOC1: {0: 'NULL', 1: 'INTEGER'}, LOC2: {0: 'INTEGER', 1: 'BOOLEAN'}},
+               {LOC2: {0: 'NULL', 1: 'INTEGER'}}]
+OPT_PROBES = ([('Fie', {'bar': b, 'fum': f}) for b in (0, 1, 2) for f in (None, 5, True, b'\x05\x00', b'\x02\x01\x07')] +
+              [('Fum', {'k': k, 'w': f}) for k in (0, 1) for f in (None, 5, True, b'\x05\x00')] +
+              [('Fum', {'k': 0, 'w': None, 'note': 'x'})])
+OPT_WIRE = [('Fie', bytes.fromhex(h)) for h in ('30050201000500', '3006020101020105', '30060201010101ff', '30060201000201 05'.replace(' ', ''))] + \
+           [('Fum', bytes.fromhex(h)) for h in ('30050201000500', '30060201000101ff', '3006020101020105')]
+
+
+def opt_behaviour(spec):
+    res = []
+    for name, v in OPT_PROBES:
+        res.append(outcome(lambda: bytes(spec.encode(name, v))))
+    for name, data in OPT_WIRE:
+        res.append(outcome(lambda: spec.decode(name, data)))
+    return res
 
 
 def profile():
@@ -222,6 +254,42 @@ def run_shard(ctx):
             st.inc('histories')
             if len(st.samples) < 1:
                 st.sample({'history': sig, 'all_calls_equal_to_uncached': True})
+        # ---------------- (1b) option histories: any_defined_by_choices x encoding x numeric_enums on one cache
+        for h in range(2 if ctx.tier == 'quick' else 10):
+            hd = os.path.join(work, 'o{}'.format(h))
+            os.makedirs(hd)
+            cache = os.path.join(hd, 'cache')
+            path = os.path.join(hd, 'opt.asn')
+            with open(path, 'w', encoding='utf-8') as f:
+                f.write(OPT_TEXT)
+            sig = []
+            for step in range(rnd.randint(3, 10)):
+                ci = rnd.randrange(len(OPT_CHOICES))
+                kw = {'any_defined_by_choices': OPT_CHOICES[ci], 'encoding': rnd.choice(['utf-8', 'latin-1']),
+                      'numeric_enums': rnd.random() < 0.3}
+                codec = rnd.choice(['ber', 'der', 'ber', 'der', 'per', 'jer'])
+                sig.append('{}/choices{}/{}{}'.format(codec, ci, kw['encoding'], '#' if kw['numeric_enums'] else ''))
+                st.inc('option_history_calls')
+                st.inc('evaluations')
+                try:
+                    unc = at.compile_files(path, codec, **kw)
+                except Exception as e:
+                    st.inc('rejected_by_compiler')
+                    continue
+                exp = opt_behaviour(unc)
+                try:
+                    got = opt_behaviour(at.compile_files(path, codec, cache_dir=cache, **kw))
+                except Exception as e:
+                    ctx.violation('cached_compile_raises_on_intact_cache', {'history': sig, 'texts': [OPT_TEXT]},
+                                  {'history': ' > '.join(sig), 'detail': common.short_exc(e)})
+                    continue
+                if got != exp:
+                    d = [(g, e) for g, e in zip(got, exp) if g != e][:1]
+                    ctx.violation('cached_compile_differs_from_uncached', {'history': sig, 'texts': [OPT_TEXT]},
+                                  {'history': ' > '.join(sig), 'detail': 'cached {} / uncached {}'.format(repr(d[0][0])[:200], repr(d[0][1])[:200])})
+                    continue
+                st.inc('option_history_outcome:equal')
+                st.mark(('opt', tuple(sig[-2:])))
         # ---------------- (2) crash points, sharded
         scens = SCENARIOS[:2] if ctx.tier == 'quick' else SCENARIOS
         points = []
